@@ -312,6 +312,9 @@ class Model:
         if ('iso' in paths and self.rr and self.level < 4 and depth(paths['iso']) % 8 == 0 and self.rr_moved_removed
                 and 'rr-moved-stale' in self.avoid):
             raise Skip('avoid:rr-moved-stale')
+        if ('iso' in paths and self.rr and self.level < 4 and depth(paths['iso']) % 8 == 0 and self.generation > 0
+                and 'reloc-after-reopen' in self.avoid):
+            raise Skip('avoid:reloc-after-reopen')
 
         def effect():
             self.gids[new_gid] = dict(paths)
